@@ -58,3 +58,10 @@ CHECKS["C19"] = {
   "text": "Every matrix in the bound is clustered by upgma() and neighbor_joining(); the result must contain every index exactly once, be ultrametric with each merge height = half the average-linkage distance recomputed from the input along a valid greedy order (UPGMA), or reproduce every leaf-to-leaf path length of the additive matrix (NJ). Every hand-built tree in the bound is written with every writer option combination, read back (plain and whitespace-decorated), copied, converted to binary form and queried (distances, LCA) against explicit walks on a parent-pointer model. ~197 k cases quick, ~2.6 M thorough.",
   "note": "Trusts mc/models/phylo_model.py (parent-pointer tree, average linkage, additive matrices, strict Newick parser). Refusing hand-built trees with duplicate leaf indices and atomic failure of TreeNode construction are counted as unspecified (not in the statement).",
 }
+CHECKS["C06"] = {
+  "engine": "E2-input-enumerator",
+  "technique": "complete enumeration of string tables (every string of length <=3/4 over a 14-symbol awkward alphabet + reserved words at every cell of every 1-3 x 1-3 layout; all pairs of quoting-class representatives) and explicit-state BFS over mapping-operation histories on the six CIF/BinaryCIF container classes against nested dict models",
+  "ref": "DESIGN.md section 4 C06; notes/C06.md",
+  "text": "Every awkward value at every cell position is serialised, parsed again and compared cell by cell incl. masks; container histories (set/get/del/pop/setdefault/update/in/len/iter/keys/items/==/serialize/re-parse) are explored breadth-first to depth 4 (quick) / 5 (thorough) with laziness flags in the canonical state, each step compared with a dict model. ~730 k cases and ~386 k transitions quick.",
+  "note": "Trusts the dict model and the table oracle in props/c06.py; BinaryCIF equality after a write is EITHER (encoding objects take part in __eq__). Multi-line values with blank/indented/'#'/'_'/reserved-word inner lines are recorded known findings (tokenizer restructuring).",
+}
